@@ -221,7 +221,7 @@ class Call:
     def describe(self):
         d = {"op": self.op, "keys": [k if isinstance(k, str) else {"hex": k.hex()} for k in self.keys],
              "value": self.value if isinstance(self.value, (str, int)) else (
-                 {"hex": bytes(self.value).hex()} if isinstance(self.value, bytes) else {"repr": repr(self.value), "hex": None}),
+                 {"hex": bytes(self.value).hex()} if isinstance(self.value, bytes) else {"repr": repr(self.value)[:60], "hex": None}),
              "noreply": self.noreply, "serde": getattr(self, "serde", False)}
         for n in ("expire", "flags", "cas", "delta", "delay"):
             v = getattr(self, n)
@@ -318,8 +318,13 @@ def judge(chk, dim, call, stack, prefix, uni, encoding, klass):
 
 SINGLE_KEY_OPS = list(STORE) + ["cas", "get", "gets", "gat", "gats", "delete", "incr", "decr", "touch"]
 MULTI_KEY_OPS = ["get_many", "gets_many", "delete_many", "set_many"]
+import array
+
 VALUES = [b"", b"\r\n", b"END\r\n", b"get x\r\n", b"STORED", b"v\r\nflush_all\r\n", b" noreply", b"x" * 4096,
-          "text", "café", 17, b"\x00\xff"]
+          "text", "café", 17, b"\x00\xff",
+          # bytes-like objects that are not bytes: whatever the client does with them, the length must be in bytes
+          bytearray(b"ba\r\nflush_all\r\n"), memoryview(b"mv-bytes"), memoryview(array.array("I", [1, 2, 3])),
+          memoryview(array.array("H", [0x0a0d, 0x6c66]))]
 INT_GOOD = {
     "expire": [-(2**63), -1, 0, 1, 2**31 - 1, 2**31, 2**63 - 1],
     "flags": [0, 1, 2**16, 2**32 - 1],
@@ -391,6 +396,42 @@ def dim_ints(chk, tier, stack):
                             judge(chk, "int", c, stack, b"", False, enc, f"{name}:{kind}:{type(v).__name__}:{enc}")
 
 
+def dim_admin(chk, tier, stack):
+    """commands that take no key: a configured key prefix must not leak into their arguments"""
+    cls, cargs = STACKS[stack]
+    cases = [("stats", ()), ("stats", ("slabs",)), ("stats", ("cachedump", "1", "10")), ("cache_memlimit", (64,)),
+             ("version", ()), ("flush_all", ())]
+    for prefix in (b"", b"ns:", b"a b"):
+        for name, args in cases:
+            if not hasattr(cls, name):
+                continue
+            replies = {"stats": b"STAT pid 1\r\nEND\r\n", "cache_memlimit": b"OK\r\n", "version": b"VERSION 1\r\n", "flush_all": b"OK\r\n"}
+            mod = RecModule(replies[name])
+            obj = cls(*cargs, socket_module=mod, key_prefix=prefix, default_noreply=False)
+            try:
+                getattr(obj, name)(*args)
+                res = "ok"
+            except Exception as e:
+                res = "exc:" + type(e).__name__
+            sent = b"".join(mod.sent)
+            items, residue = parse_all(sent)
+            if name == "stats":
+                want = [Cmd(b"stats", args=[a.encode() for a in args])]
+            elif name == "cache_memlimit":
+                want = [Cmd(b"cache_memlimit", delta=64)]
+            elif name == "version":
+                want = [Cmd(b"version")]
+            else:
+                want = [Cmd(b"flush_all", delay=0)]
+            chk.add()
+            chk.outcome(("admin", stack, name, args, prefix))
+            if residue or items != want:
+                chk.violation(f"wrong-command|{stack}.{name}|admin:prefix={'yes' if prefix else 'no'}",
+                              f"{stack}(key_prefix={prefix!r}).{name}{args!r} wrote {sent!r} = {items}, intended {want} (call ended: {res})",
+                              {"call": None, "admin": [name, list(args)], "stack": stack, "prefix_hex": prefix.hex(),
+                               "unicode": False, "encoding": "ascii", "dim": "admin", "klass": name})
+
+
 def dim_multi(chk, tier, stack):
     good = ["k1", b"k2", "k3", "k4"]
     bad_keys = ["a b", b"\r\n", "x\x00", b"k" * 251, "café", b" ", "\t", b"a\nb"]
@@ -428,6 +469,8 @@ def _worker(job, chk):
         dim_multi(chk, tier, stack)
     elif dim == "serde":
         dim_serde(chk, tier, stack)
+    elif dim == "admin":
+        dim_admin(chk, tier, stack)
     if dim == "int" and stack == "Client":
         chk.sample(Call("set", ["k"], value=b"flush_all", flags="0 0 0\r\nflush_all\r\nset k 0").describe())
         chk.sample(Call("cas", ["k"], cas=b"18446744073709551615", noreply=False).describe())
@@ -445,6 +488,7 @@ def _jobs(tier):
         jobs.append(("value", stack, tier, None))
         jobs.append(("int", stack, tier, None))
         jobs.append(("serde", stack, tier, None))
+        jobs.append(("admin", stack, tier, None))
         if stack != "HashClient":
             jobs.append(("multi", stack, tier, None))
     return jobs
@@ -475,6 +519,10 @@ def _undesc(d):
 
 
 def replay(detail):
+    if detail.get("dim") == "admin":
+        tmp = runner.Check(PROPERTY, LEVEL, "quick", 0)
+        dim_admin(tmp, "quick", detail["stack"])
+        return [v["what"] for v in tmp.violations.values()]
     call = _undesc(detail["call"])
     prefix = bytes.fromhex(detail["prefix_hex"])
     tmp = runner.Check(PROPERTY, LEVEL, "quick", 0)
